@@ -67,17 +67,18 @@ Proof.
     + destruct (String.eqb k g'); [reflexivity|exact IH].
 Qed.
 
-(* the two worlds: equal off the built-in names; the built-in names bound as the two tables say *)
-Record wrel (Bf1 Bf2 : string -> value) (W1 W2 : world) : Prop := {
+(* the two worlds: equal off the built-in names; the built-in names bound as the two tables say; the
+   same output written since the two sides held o1 and o2 (o1 = o2 = []: the same output altogether) *)
+Record wrel (Bf1 Bf2 : string -> value) (o1 o2 : list string) (W1 W2 : world) : Prop := {
   wr_glob : gsame (w_glob W1) (w_glob W2);
-  wr_out : w_out W1 = w_out W2;
+  wr_out : exists d, w_out W1 = d ++ o1 /\ w_out W2 = d ++ o2;
   wr_in : w_in W1 = w_in W2;
   wr_b : forall nm, is_bname nm = true ->
            fun_eqb (gval (w_glob W1) nm) (Bf1 nm) = fun_eqb (gval (w_glob W2) nm) (Bf2 nm) }.
 
-Lemma wrel_glob Bf1 Bf2 W1 W2 g x :
-  wrel Bf1 Bf2 W1 W2 -> is_bname g = false ->
-  wrel Bf1 Bf2 (wglob W1 (sassoc_set (w_glob W1) g x)) (wglob W2 (sassoc_set (w_glob W2) g x)).
+Lemma wrel_glob Bf1 Bf2 o1 o2 W1 W2 g x :
+  wrel Bf1 Bf2 o1 o2 W1 W2 -> is_bname g = false ->
+  wrel Bf1 Bf2 o1 o2 (wglob W1 (sassoc_set (w_glob W1) g x)) (wglob W2 (sassoc_set (w_glob W2) g x)).
 Proof.
   intros [Hg Ho Hi Hb] Hn. constructor; cbn [wglob w_glob w_out w_in]; try assumption.
   - intros g' Hg'. destruct (String.eqb_spec g g') as [->|NE]; [rewrite !gval_set_same; reflexivity|].
@@ -86,25 +87,26 @@ Proof.
     rewrite !gval_set_other by exact NE. exact (Hb nm Hnm).
 Qed.
 
-Lemma bop_sem_rel Bf1 Bf2 b W1 W2 x :
-  wrel Bf1 Bf2 W1 W2 ->
-  snd (bop_sem b W1 x) = snd (bop_sem b W2 x) /\ wrel Bf1 Bf2 (wbump (fst (bop_sem b W1 x))) (wbump (fst (bop_sem b W2 x))).
+Lemma bop_sem_rel Bf1 Bf2 o1 o2 b W1 W2 x :
+  wrel Bf1 Bf2 o1 o2 W1 W2 ->
+  snd (bop_sem b W1 x) = snd (bop_sem b W2 x) /\ wrel Bf1 Bf2 o1 o2 (wbump (fst (bop_sem b W1 x))) (wbump (fst (bop_sem b W2 x))).
 Proof.
   intros [Hg Ho Hi Hb]. destruct b; cbn [bop_sem fst snd]; (split; [reflexivity|]);
-    constructor; cbn [wbump wwrite w_glob w_out w_in]; try assumption. rewrite Ho. reflexivity.
+    constructor; cbn [wbump wwrite w_glob w_out w_in]; try assumption.
+  destruct Ho as [d0 [E1 E2]]. exists (to_string fmt_float x :: d0). rewrite E1, E2. split; reflexivity.
 Qed.
 
-Theorem ssem_related Bf1 Bf2 : forall n t W1 W2 W1' r,
-  wstmt t = true -> nobs t = true -> wrel Bf1 Bf2 W1 W2 ->
+Theorem ssem_related Bf1 Bf2 o1 o2 : forall n t W1 W2 W1' r,
+  wstmt t = true -> nobs t = true -> wrel Bf1 Bf2 o1 o2 W1 W2 ->
   ssem Bf1 n W1 t = Some (W1', r) ->
-  exists W2', ssem Bf2 n W2 t = Some (W2', r) /\ wrel Bf1 Bf2 W1' W2'.
+  exists W2', ssem Bf2 n W2 t = Some (W2', r) /\ wrel Bf1 Bf2 o1 o2 W1' W2'.
 Proof.
   induction n as [|n IH]; intros t W1 W2 W1' r Hw Hn HR Hs; [discriminate Hs|].
   pose proof HR as [Hg Ho Hi Hb].
   assert (Pure : pure t = true -> nobe t = true ->
             (if Nat.leb (height t) (S n) then Some (W1, den (w_glob W1) t) else None) = Some (W1', r) ->
             exists W2', (if Nat.leb (height t) (S n) then Some (W2, den (w_glob W2) t) else None) = Some (W2', r) /\
-                        wrel Bf1 Bf2 W1' W2').
+                        wrel Bf1 Bf2 o1 o2 W1' W2').
   { intros Hp Hnb H. destruct (Nat.leb (height t) (S n)); [|discriminate H]. injection H as <- <-.
     exists W2. rewrite (den_same _ _ Hg t Hp Hnb). split; [reflexivity|exact HR]. }
   destruct t; try (apply Pure; [exact Hw|exact Hn|exact Hs]); try discriminate Hw.
@@ -128,7 +130,7 @@ Proof.
     rewrite ssem_while in Hs |- *. destruct (Nat.leb (height t1) n); [|discriminate Hs].
     clear Pure Hg Ho Hi Hb. revert Hs. generalize VNil. generalize n at 2 4. intros k. revert W1 W2 HR.
     induction k as [|k IHk]; intros W1 W2 HR last Hs; [discriminate Hs|]. cbn [swhile_of] in *.
-    rewrite <- (den_same _ _ (wr_glob _ _ _ _ HR) t1 Hc Hn1). destruct (cond_res (den (w_glob W1) t1)) as [[|]|e].
+    rewrite <- (den_same _ _ (wr_glob _ _ _ _ _ _ HR) t1 Hc Hn1). destruct (cond_res (den (w_glob W1) t1)) as [[|]|e].
     + destruct (ssem Bf1 n W1 t2) as [[W1a [v|e]]|] eqn:Eb; try discriminate Hs.
       * destruct (IH t2 W1 W2 W1a (Ok v) Hb' Hn2 HR Eb) as (W2a & E2 & HR2). rewrite E2.
         exact (IHk W1a W2a HR2 v Hs).
@@ -189,13 +191,14 @@ Proof.
       rewrite <- (Hb n0 Hbn).
       destruct (Nat.leb (height a) n && Nat.leb 2 n && fun_eqb (gval (w_glob W1) n0) (Bf1 n0)); [|discriminate Hs].
       rewrite <- (den_same _ _ Hg a Hw Hn). destruct (den (w_glob W1) a) as [x|err].
-      * injection Hs as <- <-. destruct (bop_sem_rel Bf1 Bf2 b W1 W2 x HR) as [E1 E2]. rewrite E1.
+      * injection Hs as <- <-. destruct (bop_sem_rel Bf1 Bf2 o1 o2 b W1 W2 x HR) as [E1 E2]. rewrite E1.
         eexists. split; [reflexivity|exact E2].
       * injection Hs as <- <-. exists W2. split; [reflexivity|exact HR].
   - (* NWrite *)
     cbn [wstmt] in Hw. cbn [nobs] in Hn. cbn [ssem] in Hs |- *. destruct (Nat.leb (height t) n); [|discriminate Hs].
     rewrite <- (den_same _ _ Hg t Hw Hn). destruct (den (w_glob W1) t) as [x|err]; injection Hs as <- <-.
-    + eexists. split; [reflexivity|]. constructor; cbn [wwrite w_glob w_out w_in]; try assumption. rewrite Ho. reflexivity.
+    + eexists. split; [reflexivity|]. constructor; cbn [wwrite w_glob w_out w_in]; try assumption.
+      destruct Ho as [d0 [E1 E2]]. exists (to_string fmt_float x :: d0). rewrite E1, E2. split; reflexivity.
     + exists W2. split; [reflexivity|exact HR].
 Qed.
 
